@@ -106,29 +106,34 @@ Proof.
   - destruct (IH it H) as [j [Hj Hr]]. exists j. split; [right; exact Hj | exact Hr].
 Qed.
 
-Lemma lsp_loop_terminates : forall fs imps fuel seen acc stack,
-  NoDup seen -> incl seen (files fs) ->
-  (forall it, In it stack -> In (fst it) (files fs)) ->
-  (length (files fs) - length seen < fuel)%nat ->
+(* [U]: any list that contains the files of fs (here: the entry, which the editor may hold without
+   it being on disk, followed by the files) *)
+Lemma lsp_loop_terminates : forall fs imps (U : list path),
+  (forall q, In q (files fs) -> In q U) ->
+  forall fuel seen acc stack,
+  NoDup seen -> incl seen U ->
+  (forall it, In it stack -> In (fst it) U) ->
+  (length U - length seen < fuel)%nat ->
   lsp_loop fuel fs imps seen acc stack <> OutOfFuel.
 Proof.
-  intros fs imps. induction fuel as [|f IH]; intros seen acc stack ND INC ST M; [lia|].
+  intros fs imps U HU. induction fuel as [|f IH]; intros seen acc stack ND INC ST M; [lia|].
   cbn [lsp_loop]. destruct (ldrop_done seen stack) as [|it rest] eqn:DD; [discriminate|].
   destruct (ldrop_done_spec _ _ _ _ DD) as [Hm [Hin Hrest]].
-  destruct (step_measure (files fs) seen (fst it) f ND INC (mem_false_not_In _ _ Hm) (ST it Hin) M) as [ND' [INC' M']].
+  destruct (step_measure U seen (fst it) f ND INC (mem_false_not_In _ _ Hm) (ST it Hin) M) as [ND' [INC' M']].
   apply IH; try assumption.
   intros x Hx. apply in_app_or in Hx. destruct Hx as [Hx|Hx].
-  - apply in_rev in Hx. destruct (lpushes_in _ _ _ _ Hx) as [i [_ Hr]]. exact (rip_sound _ _ _ _ Hr).
+  - apply in_rev in Hx. destruct (lpushes_in _ _ _ _ Hx) as [i [_ Hr]]. apply HU. exact (rip_sound _ _ _ _ Hr).
   - apply ST. apply Hrest. exact Hx.
 Qed.
 
 Lemma lsp_collect_terminates : forall fs imps entry fuel,
   (fuel_of fs <= fuel)%nat -> lsp_collect fuel fs imps entry <> OutOfFuel.
 Proof.
-  intros fs imps entry fuel HF. unfold lsp_collect. apply lsp_loop_terminates.
-  - constructor.
-  - intros x [].
-  - intros it H. apply in_rev in H. destruct (lpushes_in _ _ _ _ H) as [i [_ Hr]]. exact (rip_sound _ _ _ _ Hr).
+  intros fs imps entry fuel HF. unfold lsp_collect. apply (lsp_loop_terminates fs imps (entry :: files fs)).
+  - intros q Hq. right. exact Hq.
+  - constructor; [intros [] | constructor].
+  - intros x [<-|[]]. left. reflexivity.
+  - intros it H. apply in_rev in H. destruct (lpushes_in _ _ _ _ H) as [i [_ Hr]]. right. exact (rip_sound _ _ _ _ Hr).
   - pose proof (files_length fs). unfold fuel_of in HF. cbn [length]. lia.
 Qed.
 
